@@ -107,11 +107,17 @@ func C02Grid(tier string) []*Config {
 
 // RunC16InPlay / RunC02InPlay are the in-play halves of C16 and C02.
 func RunC16InPlay(rep *explore.Report, tier string) {
+	if RunScenes(rep, tier, Visitors["C16"], GridOpts{Property: "C16"}) {
+		return
+	}
 	RunGrid(rep, C02Grid(tier), Visitors["C16"], GridOpts{Property: "C16", MaxState: 3000000})
 	RunGrid(rep, ReplayGrid(tier), Visitors["C16"], GridOpts{Property: "C16", MaxState: 300000, Mode: "replay"})
 }
 
 func RunC02InPlay(rep *explore.Report, tier string) {
+	if RunScenes(rep, tier, Visitors["C02"], GridOpts{Property: "C02"}) {
+		return
+	}
 	RunGrid(rep, C02Grid(tier), Visitors["C02"], GridOpts{Property: "C02", MaxState: 3000000})
 	RunGrid(rep, ReplayGrid(tier), Visitors["C02"], GridOpts{Property: "C02", MaxState: 300000, Mode: "replay"})
 }
